@@ -377,14 +377,21 @@ def job_cal(job):
   st = Stats()
   cands, inconc, samples = [], [], []
   for skel, rname, key, n in job.args['cases']:
-    en = Engine(solver_timeout_ms=30000, max_paths=50)
+    en = Engine(solver_timeout_ms=30000, max_paths=24, wall_budget_s=60)
     en.stop_path_on_violation = True
-    en.explore(make_harness(fam[skel], _recipe(skel, rname, tier), key, n))
+    en.explore(make_harness(fam[skel], _recipe(skel, rname, tier), key, n),
+               stop_on_violation=True)
+    if en.violations:
+      # a violation was found and is replayed; unexplored paths do not
+      # matter for the verdict of this case
+      en.inconclusive = []
     st.merge(en.stats)
     inconc += [f'{skel}/{rname}/{key}/{n}: {x}' for x in en.inconclusive]
     for v in en.violations[:1]:
       c = Candidate(v.name, {'skeleton': skel, 'recipe': rname, 'key': key,
-                             'n': n, 'info': v.info})
+                             'n': n, 'info': v.info,
+                             'stats': {k: z3val_to_py(x) for k, x in
+                                       v.model_values.items()}})
       c.job = job.name
       cands.append(c)
     if len(samples) < 2:
@@ -425,7 +432,17 @@ def replay(c):
     for tm in sd.inputs:
       t = sg.tensors[tm.tensorIndex]
       nm = tm.name.decode() if isinstance(tm.name, bytes) else tm.name
-      if t.type == 0:
+      stats = d.get('stats') or {}
+      nel = int(np.prod(t.shape)) if len(t.shape) else 1
+      wit = [stats.get(f'in_k{k}_{nm}_{i}' if len(t.shape) else
+                       f'in_k{k}_{nm}') for i in range(nel)]
+      if t.type == 0 and all(isinstance(w, dict) for w in wit):
+        # the solver's witness for the signature inputs of this sample
+        from symx.core import fpbits_to_float
+        arr = np.array([fpbits_to_float(w) for w in wit], np.float32)
+        arr = np.where(np.isfinite(arr), arr, 0.0).astype(np.float32)
+        s[nm] = arr.reshape(tuple(t.shape))
+      elif t.type == 0:
         s[nm] = (rng.normal(size=tuple(t.shape)) * (k + 1)).astype(np.float32)
       else:
         s[nm] = rng.integers(0, 2, size=tuple(t.shape)).astype(
